@@ -296,8 +296,8 @@ macro_rules! impl_derivatives {
 
             #[inline]
             fn sph_j0(&self) -> Self {
-                if self.re().abs() < F::epsilon() {
-                    Self::one() - self * self / F::from(6.0).unwrap()
+                if self.re().abs() < F::one() {
+                    $crate::sph_jn_series(self, 0)
                 } else {
                     self.sin() / self
                 }
@@ -305,8 +305,8 @@ macro_rules! impl_derivatives {
 
             #[inline]
             fn sph_j1(&self) -> Self {
-                if self.re().abs() < F::epsilon() {
-                    self.clone() / F::from(3.0).unwrap()
+                if self.re().abs() < F::one() {
+                    $crate::sph_jn_series(self, 1)
                 } else {
                     let (s, c) = self.sin_cos();
                     (s - self * c) / (self * self)
@@ -315,8 +315,8 @@ macro_rules! impl_derivatives {
 
             #[inline]
             fn sph_j2(&self) -> Self {
-                if self.re().abs() < F::epsilon() {
-                    self * self / F::from(15.0).unwrap()
+                if self.re().abs() < F::one() {
+                    $crate::sph_jn_series(self, 2)
                 } else {
                     let (s, c) = self.sin_cos();
                     let s2 = self * self;
